@@ -1,4 +1,20 @@
-// unit int_parse_npt (C07, parsing half): integer/src/parse/non_power_two.rs
+// unit int_parse_npt (C07, parsing half): integer/src/parse/non_power_two.rs -- parse_word, parse_chunk,
+// parse_large_divide_conquer, parse_large, parse; UNBOUNDED in the length of the text.
+// Post (from the property statement, vocabulary lib/parse_spec.rs): for a digit string `bytes` (most significant first)
+//     Ok(v)  ==> every byte is a digit of the radix (0-9, a-z / A-Z below the radix) and v == digits_value(bytes, radix)
+//     Err(e) ==> some byte is not a digit of the radix and e == InvalidDigit
+// (both directions: a Result is one or the other), for `parse` on the text with its '_' separators:
+//     Ok(v) ==> text_ok(src) && v == digits_value(strip_us(src), radix);  Err(e) ==> !text_ok(src) && e == InvalidDigit.
+// Proved besides: no Word overflow in `word * radix + digit` (len <= digits_per_word), every debug assertion except the
+// radix class test (drop_asserts=0: `is_power_of_two` is not a spec function), buffer capacity of parse_chunk,
+// no usize overflow / shift overflow in the power loop, `bytes.len() <= chunk_bytes << radix_powers.len()`, termination.
+// Trusted: lib/parse_stubs.rs (digit_from_ascii_byte, radix_info = what Kani group int_radix proves; UBig from Word,
+// `*`, `+` exact; <[T]>::split_last / contains), lib/parse_str.rs (string model), lib/repr_stubs.rs (Buffer, Repr),
+// lib/pow_api_stubs.rs (UBig mirror); callee contracts by SIG: mul::mul_word_in_place_with_carry (unit int_mul),
+// UBig::pow (unit int_pow_api).  Engine rules D1e (rchunks), D11d (reference operands), D15c (copied/filter/collect):
+// their helpers (lib/parse_rchunks.rs, lib/parse_filter.rs) are verified here.
+// Precondition `bytes.len() <= isize::MAX` of parse_large: language invariant of slices (established by `parse` from the
+// string model).
 #![allow(unused_imports, unused_variables, dead_code, non_snake_case, unused_mut, unused_parens, unused_braces)]
 use vstd::prelude::*;
 verus! {
